@@ -253,4 +253,58 @@ class FakeSocket(socket.socket):
             return n
 
 
+class FakeDatagramSocket(socket.socket):
+    """A real (never connected) SOCK_DGRAM socket object whose I/O methods are scripted: a FIFO of whole datagrams stands for the
+    kernel (send(d) enqueues exactly d - loopback -, recv() pops exactly one datagram, truncated to bufsize like the kernel does)."""
+
+    def __init__(self, env: Env):
+        super().__init__(socket.AF_INET, socket.SOCK_DGRAM)
+        self.env = env
+        self.queue = []
+        self.sends = 0
+        self.recvs = 0
+        env.ready_possible = self._ready_possible
+
+    def _ready_possible(self, event):
+        if event == selectors.EVENT_WRITE:
+            return True
+        return len(self.queue) > 0
+
+    def really_close(self):
+        socket.socket.close(self)
+
+    def setblocking(self, flag):
+        pass
+
+    def getsockname(self):
+        return ("127.0.0.1", 1)
+
+    def getpeername(self):
+        return ("127.0.0.1", 2)
+
+    def getsockopt(self, level, optname, *a):
+        if level == socket.SOL_SOCKET and optname == socket.SO_ERROR:
+            return 0
+        return socket.socket.getsockopt(self, level, optname, *a)
+
+    def send(self, data, *a):
+        self.env.tick()
+        if self.env.decide_eagain():
+            raise BlockingIOError(11, "would block")
+        self.sends += 1
+        data = bytes(data)
+        self.queue.append(data)
+        return len(data)
+
+    def recv(self, bufsize, *a):
+        self.env.tick()
+        if not self.queue:
+            raise BlockingIOError(11, "would block")
+        if self.env.decide_eagain():
+            raise BlockingIOError(11, "would block")
+        self.recvs += 1
+        d = self.queue.pop(0)
+        return d[:bufsize]
+
+
 INF = math.inf
